@@ -258,11 +258,17 @@ func (bs *BlindSignature) fromBytes(bytes []byte, c *math.Curve) error {
 	bs.a = make([]*math.G1, len(rbs.A))
 	for i := 0; i < len(rbs.A); i++ {
 		bs.a[i], err = c.NewG1FromBytes(rbs.A[i])
+		if err != nil {
+			return err
+		}
 	}
 
 	bs.b = make([]*math.G1, len(rbs.B))
 	for i := 0; i < len(rbs.B); i++ {
 		bs.b[i], err = c.NewG1FromBytes(rbs.B[i])
+		if err != nil {
+			return err
+		}
 	}
 
 	return nil
@@ -717,6 +723,14 @@ func (ξ *BlindCorrectFormProof) Bytes() []byte {
 }
 
 func (ξ *BlindCorrectFormProof) Verify(c *math.Curve, n int, a, b []*math.G1, cm *math.G1, g *math.G1, g0 *math.G1, h *math.G1, u *math.G1, gs []*math.G1) error {
+	if len(ξ.x) != n || len(ξ.y) != n || len(ξ.d) != n || len(ξ.f) != n {
+		return fmt.Errorf("proof has |x|=%d, |y|=%d, |d|=%d, |f|=%d but expected %d of each", len(ξ.x), len(ξ.y), len(ξ.d), len(ξ.f), n)
+	}
+
+	if len(a) != n || len(b) != n || len(gs) < n {
+		return fmt.Errorf("request has |a|=%d, |b|=%d but expected %d of each", len(a), len(b), n)
+	}
+
 	digest := randomOracleForBlindingProof(n, ξ.d, ξ.f, ξ.s, a, b, cm, g, g0, h, u, gs)
 	e := c.HashToZr(digest)
 
